@@ -55,7 +55,7 @@ TRUSTED = [
     "when the descriptor limit is reached, a dropped socket object is closed) stand for the kernel; a handful of "
     "histories run on the real servers over real loopback sockets (own __init__, bind, listen(10), settimeout, start())",
     "not modelled (skipped by the correspondence, counted): a NaN inside a port or host (NaN dict keys are equal by object "
-    "identity only), TAG_SLICE applied to a frozenset, Python's recursion limit; the kernel's listen backlog "
+    "identity only), TAG_SLICE applied to a frozenset; the kernel's listen backlog "
     "(`listen(10)`: connections beyond it wait or are refused by the kernel while the registry sits in a silent client's TIMEOUT)",
 ]
 ASSUMPTIONS = [
@@ -69,13 +69,20 @@ ASSUMPTIONS = [
     "logger.exception / debug elsewhere; true of a real logging.Logger on this interpreter (obligation "
     "logger_warn_survives; a quarter of the correspondence and all real-socket histories run with one at DEBUG level), "
     "not of a user-supplied logger whose methods raise",
-    "TCP: 'cannot be stopped from answering others' is a bound on delay, not immunity from delay: each silent client costs "
-    "TCPRegistryServer.TIMEOUT (3000 ms) for everyone queued behind it, which already exceeds the 2000 ms default reply "
-    "timeout of rpyc's own TCPRegistryClient (silentClientsTolerated = (2000-1)/3000 = 0, theorem tcp_delay_and_patience): "
-    "a default client behind one silent client gives up although the registry answers it 3 s later",
-    "`registry_never_dies` assumes: histories of fewer than 2^32 datagrams from the empty registry; each datagram a "
+    "KNOWN FINDING C18:tcp-silent-client-outlasts-default-client-timeout (theorem "
+    "C18_counterexample_silent_client_outlasts_default_client; real-socket probe in known_probes, armed while the finding is "
+    "listed): over TCP the registry is never refused or stopped, but each connection that sends nothing costs everyone queued "
+    "behind it TCPRegistryServer.TIMEOUT (3000 ms), more than the 2000 ms after which rpyc's own TCPRegistryClient gives up "
+    "and returns () - a silent wrong answer; what is proved is the part that holds (everyone is accepted, the cost is "
+    "exactly TIMEOUT per silent connection)",
+    "`stored_can_always_be_sent` assumes: histories of fewer than 2^32 datagrams from the empty registry; each datagram a "
     "genuine byte string as `_recv` returns it (at most MAX_DGRAM_SIZE bytes); the host text the transport reports is "
-    "something brine.dump accepts; iterating a frozenset yields members of it (`EnvOk`)",
+    "something brine.dump accepts; iterating a frozenset yields members of it (`EnvOk`); `work_total` / "
+    "`registry_never_dies` assume nothing",
+    "the interpreter's recursion limit is an environment fact (`Env.loadOverflows`, `Env.dumpOverflows`, universally "
+    "quantified in the theorems; in the correspondence observed per event by watching brine.load / brine.dump inside the "
+    "registry module): a query whose reply cannot be dumped is not answered (and, with the register-time check, such an "
+    "address is never stored)",
 ]
 EXPLANATION = ("Theorems over all histories of datagrams (every byte string) and all clocks: a query answers exactly the "
                "entries stored under the upper-cased name whose refresh is not older than the pruning interval, by refresh "
@@ -86,9 +93,11 @@ EXPLANATION = ("Theorems over all histories of datagrams (every byte string) and
                "well-formed one only the entries it names, and no datagram touches a live registration of another host "
                "(stated on the sender's host, independent of the model's parsing; the malformed classes are also stated "
                "on the decoded value itself); case-insensitivity explicit; every TCP client is accepted whatever "
-               "earlier clients did and k silent ones cost exactly k x TIMEOUT - a delay (3000 ms each, more than a "
-               "default client's 2000 ms patience), not a knock-over.  Interpreter facts (hashable slice, Logger.warn) "
-               "are generated proof obligations with the other branch modelled.")
+               "earlier clients did and k silent ones cost exactly k x TIMEOUT (3000 ms each, more than a default client's "
+               "2000 ms patience: known finding with counterexample theorem).  Facts about the interpreter and about the code "
+               "(hashable slice, Logger.warn, reply dump guarded, register refuses an unsendable address, TCP _recv closes "
+               "unanswered sockets) are measured on the live code and are proof obligations with the other branch modelled; "
+               "the recursion limit is a quantified environment fact.")
 
 
 def reg():
@@ -851,11 +860,17 @@ def deep_cases(ctx):
     depends on the parity of the stack below `_work` - so a whole window of depths, both parities, several leaves
     (they need different numbers of frames to load and to dump).  Run under the default recursion limit."""
     out = []
-    lo, hi = DEEP_LIMIT // 2 - 60, DEEP_LIMIT // 2 + 6
-    leaves = [(7, range(lo, hi)), (300, range(hi - 36, hi)), ("x", range(hi - 36, hi)), (b"", range(hi - 36, hi)),
-              ((), range(hi - 36, hi)), (frozenset(), range(hi - 36, hi)), (1.5, range(hi - 36, hi))]
+    # where does the registry, at the stack depth it runs at here, stop being able to load a nested port at all
+    top = DEEP_LIMIT // 2 + 8
+    probe = [("t", 0)] + [("d", "10.0.0.9", dump(("RPYC", "REGISTER", (("probe%d" % d,), 7)))[:-1] + nested(d, 7))
+                          for d in range(top - 120, top)]
+    recs = run_real("base", 10 ** 9, 1000, probe, reclimit=DEEP_LIMIT)
+    loaded = [d for d, rec in zip(range(top - 120, top), recs) if not rec.get("rl")]
+    edge = max(loaded) if loaded else top - 20
+    wide, narrow = range(edge - 14, edge + 5), range(edge - 7, edge + 4)
+    leaves = [(7, wide), (300, narrow), ("x", narrow), (b"", narrow), ((), narrow), (frozenset(), narrow), (1.5, narrow)]
     if ctx.tier == "thorough":
-        leaves = [(l, range(lo - 100, hi)) for l, _ in leaves]
+        leaves = [(l, range(edge - 150, edge + 6)) for l, _ in leaves]
     k = 0
     for leaf, depths in leaves:
         for depth in depths:
@@ -1474,9 +1489,70 @@ def replay(case):
     return out
 
 
+PATIENCE_SIGNATURE = "C18:tcp-silent-client-outlasts-default-client-timeout"
+
+
+def listed_signatures():
+    import json
+    import os
+    try:
+        with open(os.path.join(os.path.dirname(os.path.abspath(__file__)), "..", "..", "known_findings.json")) as f:
+            return set(k.get("signature") for k in json.load(f).get("findings", []))
+    except Exception:  # noqa
+        return set()
+
+
+def probe_silent_client_vs_default_timeout():
+    """real sockets, real classes on both sides: a TCPRegistryServer built and started the normal way, a server registered
+    through TCPRegistryClient, ONE idle connection opened, then TCPRegistryClient(ip, port) with its DEFAULT timeout asks
+    for the registered name.  Reproduces = it returns () although the name is registered."""
+    r = reg()
+    srv = r.TCPRegistryServer(host="127.0.0.1", port=0, logger=NullLogger())
+    th = threading.Thread(target=srv.start, daemon=True)
+    idle = None
+    with warnings.catch_warnings():
+        warnings.simplefilter("ignore", DeprecationWarning)
+        th.start()
+        try:
+            deadline = _walltime.time() + 2
+            while not srv.active and _walltime.time() < deadline:
+                _walltime.sleep(0.005)
+            cli = r.TCPRegistryClient("127.0.0.1", srv.port, logger=NullLogger())          # default timeout
+            cli.register(("foo",), 12345, interface="127.0.0.1")
+            before = cli.discover("foo")
+            idle = socket.create_connection(("127.0.0.1", srv.port), timeout=5)   # connects and sends nothing
+            _walltime.sleep(0.05)
+            t0 = _walltime.time()
+            behind = cli.discover("foo")
+            took = _walltime.time() - t0
+        finally:
+            if idle is not None:
+                idle.close()
+            try:
+                srv.close()
+            except ValueError:
+                pass
+            try:
+                socket.create_connection(("127.0.0.1", srv.port), timeout=1).close()
+            except OSError:
+                pass
+            th.join(5)
+    reproduces = before == (("127.0.0.1", 12345),) and behind == ()
+    text = ("TCP registry, real sockets: TCPRegistryClient.discover('foo') with the default timeout (%g s) returned %r before and "
+            "%r after %.2f s behind ONE idle connection (server TIMEOUT %g s): a registered name is reported as unknown"
+            % (cli.timeout, before, behind, took, r.TCPRegistryServer.TIMEOUT))
+    return reproduces, text
+
+
 def known_probes(ctx):
     """defects the model carries (a `..._counterexample` theorem), replayed on the real code"""
     out = []
+    if PATIENCE_SIGNATURE in listed_signatures():         # armed once the finding is listed in known_findings.json
+        try:
+            rep, text = probe_silent_client_vs_default_timeout()
+            out.append((PATIENCE_SIGNATURE, rep, text))
+        except OSError as ex:
+            ctx.log("known probe %s skipped: no real sockets (%r)" % (PATIENCE_SIGNATURE, ex))
     A, B = "10.0.0.1", "10.0.0.2"
     limit = 4
     ev = [("t", 0), ("c", 1, A, cmd_register(["a"], 1))]
